@@ -784,6 +784,14 @@ def dict_interchange(ctx, P, S, rule="SCHEMA-DICT"):
         if sc.has_schema:
             ctx.ob(rule, "%s|read|metadata_schema" % t, "metadata_schema" in keys_read and bool(FR.calls_to("tsk_%s_table_set_metadata_schema" % t)), whereR,
                    "metadata_schema read and applied")
+            sm = FR.calls_to("tsk_%s_table_set_metadata_schema" % t)
+            if sm:
+                conds = [" ".join(tu.src(i.kids[0]).split()) for i, br in FR.enclosing_ifs(sm[0][1])]
+                okc = len(conds) == 1 and "Py_None" in conds[0] and "length" not in conds[0]
+                ctx.ob(rule, "%s|read|metadata_schema|guard" % t, okc, tu.loc(sm[0][1]),
+                       "the schema is applied whenever the key is present (%s)" % conds if okc else
+                       "the schema is applied only under %s: an explicitly supplied empty schema string (the null schema) is treated as absent "
+                       "and the table keeps its previous schema" % conds)
     # the edge indexes: written exactly when the collection has an index (an index over zero edges is still an index)
     sel = [x for x in walk(wf.body) if x.k == "ConditionalOperator" and "indexes_cols" in estr(x.kids[1]) + estr(x.kids[2])]
     ctx.need(bool(sel), "write_table_arrays: the `? indexes_cols : no_indexes_cols` selection")
